@@ -671,11 +671,15 @@ def check_stub_from_stored_state(ck, R3):
     *current* code says: the current definition may have other parameters than the stored call."""
     fq = FA(ck, FR + ".from_qualified_name")
     stubs = fq.calls("UnboundExternalMementoFunction")
+    from .c11 import _bound_args, _ctor_params
+    stub_params = _ctor_params(ck, "external.UnboundExternalMementoFunction")
     for call in stubs:
-        for k in call.keywords:
-            if k.arg is None:
-                continue
-            d = fq.deps(k.value)
+        bound = _bound_args(fq, call, stub_params) if fq.nodes(call) else None
+        if bound is None:
+            bound = {k.arg: (k.value, None) for k in call.keywords if k.arg is not None}
+        for (arg_, (value_, at_)) in sorted(bound.items()):
+            k = ast.keyword(arg=arg_, value=value_)
+            d = fq.deps(k.value) if at_ is None else fq.df.deps(k.value, at_)
             live = sorted(x for x in d if x in ("call:import_module", "call:signature", "call:getattr", "call:_find_function", "call:getfullargspec")
                           or x.startswith("getattr:fn") or x.startswith("getattr:__code__") or x.startswith("getattr:src_fn"))
             ck.ob(R3, fq.key(call, "stub-from-stored:" + k.arg), not live,
